@@ -46,6 +46,12 @@ def float_is_zero(v):
     return v == 0.0
 
 
+def is_finf(v): return isinstance(v, float) and v == float("inf")
+def is_fninf(v): return isinstance(v, float) and v == float("-inf")
+def is_fnan(v): return isinstance(v, float) and v != v
+def mk_float_id(k): return k if isinstance(k, float) else {3: float("inf"), 4: float("nan"), 7: float("-inf")}[k]
+
+
 def msg_is_default(v):
     return v == type(v)()
 
